@@ -225,7 +225,7 @@ UnsupportedTypes == {p \o <<l>> : p \in Prefixes(1), l \in UnsupportedLeaves} \c
 \* does not exist for a Rejected pair.
 MethodRoutes == {"method_arg", "method_result", "method_result_val"}
 Routes(t, c, mdepth) ==
-   ((IF t[1] = "iface" THEN (IF c = "nil0" /\ t = <<"iface", "bool">> THEN {"global"} ELSE {}) ELSE {"global"})
+   ((IF t[1] = "iface" THEN (IF c = "nil0" /\ t = <<"iface", "bool">> THEN {"global"} ELSE {}) ELSE {"global", "global_ov"})
     \cup {"field_read", "field_write"}
     \* a struct-valued field is written THROUGH: dst.F.A = src.F.A (dst.F.B for s2) must reach the Go struct
     \cup (IF t[1] \in {"s1", "s2"} THEN {"nested_write"} ELSE {})
